@@ -279,10 +279,15 @@ func (feed *dcpFeed) run() {
 	defer atomic.AddInt32(&activeFeedCount, -1)
 
 	if feed.args.Terminator != nil {
+		ended := make(chan struct{})
+		defer close(ended) // the feed may end for another reason (dump finished, store shut down, collection dropped)
 		go func() {
-			<-feed.args.Terminator
-			debug("%s terminator closed", feed)
-			feed.events.close()
+			select {
+			case <-feed.args.Terminator:
+				debug("%s terminator closed", feed)
+				feed.events.close()
+			case <-ended:
+			}
 		}()
 	}
 
